@@ -261,7 +261,7 @@ class P(Prop):
                 for j, (d, ci) in enumerate(zip(mech, inp["comps"])):
                     for f in ci:
                         if f != "set" and rng.random() < 0.4:
-                            ops.append(["set", j, f, ci[f]])
+                            ops.append(["set", j, f, ci[f]] + (["in_place"] if rng.random() < 0.35 else []))
             ops.append(["balance"])
             if rng.random() < 0.25:
                 ops.append(["balance"])
@@ -350,9 +350,16 @@ class P(Prop):
         return obs
 
     def l_apply(self, sysm, objs, plant, op, eff):
-        def setf(j, f, v):
+        def setf(j, f, v, in_place=False):
             d, o = plant["mech"][j], objs[j]
             eff[j][f] = v
+            # the caller edits the array the object holds (engine.status[...] = ..., load.power_input[...] = ...) instead of handing
+            # over a new one: the same single-field write in the state machine
+            if in_place and f in ("status", "out"):
+                cur = o.status if f == "status" else o.power_input
+                if isinstance(cur, np.ndarray) and cur.shape == (len(v),):
+                    cur[...] = np.array(v, dtype=bool) if f == "status" else np.array([float(x) for x in v])
+                    return
             if f == "status":
                 sysm.set_status_main_engine_for_name_shaft_line_id(d["name"], d["line"], np.array(v, dtype=bool))
             elif f == "shaft":
@@ -369,7 +376,7 @@ class P(Prop):
                     setf(j, f, v)
             eff["n"] = op[1]["n"]
         elif op[0] == "set":
-            setf(op[1], op[2], op[3])
+            setf(op[1], op[2], op[3], in_place=len(op) > 4 and op[4] == "in_place")
 
     @staticmethod
     def l_observe(plant, objs):
@@ -723,6 +730,8 @@ class P(Prop):
         if case["stream"] in ("emachine", "lmachine"):
             t = ["stream=" + case["stream"], f"balances={sum(1 for op in case['ops'] if op[0] == 'balance')}"]
             t += sorted({"partial-set:" + str(op[2]) for op in case["ops"] if op[0] == "set"})
+            if any(op[0] == "set" and len(op) > 4 for op in case["ops"]):
+                t.append("held-array-edited-in-place")
             if obs.get("poisoned"):
                 t.append("history-cut-at-a-balance-on-a-bus-without-capacity")
             if any(a[0] == "balance" and b[0] == "balance" for a, b in zip(case["ops"], case["ops"][1:])):
